@@ -77,9 +77,9 @@ PROGRAMS = [
     # 56: arguments / bases and keywords over several lines with falling columns (source order is (line, column) order)
     "r = call(a, key=1,\n    *rest)\nclass C(B, m=M,\n  *bases): pass",
     # 57: grouping parentheses that alone keep a node apart from the keywords / names around it; targets of del inside brackets
-    "with(a)as b: pass\nx = [i for i in(b)for j in k if(c)]\ny = a if((q))else c\nz = not(p)\ndel (d, e), [g]",
+    "with(a)as b: pass\nx = [i for i in(b)for j in k if(c)]\ny = a if((q))else c\nz = not(p)\ndel (d, e), [g]\nfor h in( i, j): pass\nk = l if( m, n )else o",
     # 58: identifiers whose source spelling differs in length from the normalized name the AST holds (NFKC: 'ﬁ' is 'fi', 'ℌ' is 'H')
-    "def f(ﬁ, b: ℌ = ﬁ):\n    import m as ﬁ, n.ﬂ as o\n    try: pass\n    except E as ﬁ: pass\n    return ﬁ.ﬂ(ℌ=1)\ntype X[ﬁ: int] = ﬁ",
+    "def f(ﬁ, b: ℌ = ﬁ):\n    import m as ﬁ, n.ﬂ as o\n    try: pass\n    except E as ﬁ: pass\n    return ﬁ.ﬂ(ℌ=1)\ntype X[ﬁ: int] = ﬁ\ndef g(*, ﬁx=1, ℌ=2): pass",
     # 59: tab indentation (nested), a form feed between statements, trailing blanks, whitespace-only and empty lines inside blocks,
     # eight-column and two-column indentation, final newline
     "if a:\n\tb = 1  \n\n\tif c:\n\t\td = [e,\n\t\t     f]\t# t\n\t  \n\tg = 2\n\x0c\nclass K:\n        x = 1\n\n        def m(s): return s \ndef h():\n  \'\'\'d\'\'\'\n  return 1\n",
